@@ -55,9 +55,15 @@ bool prop_run(Tape &t, Report &r) {
   auto fin = [&]() { for (int round = 0; round < 2; round++) { if (have_vb) vorbis_block_clear(&vb); if (have_vd) vorbis_dsp_clear(&vd); vorbis_comment_clear(&vc); vorbis_info_clear(&vi); } };
   auto bail = [&](const char *fmt, long a, long b) { char buf[512]; snprintf(buf, sizeof buf, fmt, a, b); fin(); return r.fail("%s [hist %s] [%s]", buf, hist.c_str(), cd.c_str()); };
   int nops = 4 + (int)t.below(40); size_t nexthdr = 0, nextpkt = 0; int cyc = 0; bool straight = !t.chance(1, 4);   // straight: the decoder_example.c order first (headers, init, then mostly synthesis/blockin/pcmout cycles), else free-form
+  // gen 3: the decoder_example order with the half-rate switch thrown before the decoder is built and/or again right after (buffers are sized at
+  // init from the setting of that moment, the per-call code reads the live setting)
+  bool hs_before_init = g_tape_gen >= 3 && straight && t.chance(1, 5), hs_after = g_tape_gen >= 3 && straight && t.chance(1, 5); int forced8 = -1;
   for (int i = 0; i < nops; i++) {
     int op;
-    if (straight && nexthdr < 3) op = 0; else if (straight && !have_vd && hdr_ok == 3 && i < 6) op = 1;
+    if (straight && nexthdr < 3) op = 0;
+    else if (straight && !have_vd && hdr_ok == 3 && hs_before_init) { op = 8; forced8 = 1; hs_before_init = false; nops++; }
+    else if (straight && have_vd && hs_after) { op = 8; forced8 = (int)t.below(2); hs_after = false; nops++; }
+    else if (straight && !have_vd && hdr_ok == 3 && i < (g_tape_gen >= 3 ? 8 : 6)) op = 1;
     else if (straight && have_vb && t.below(4) != 0) { op = block_ok ? 4 : (cyc == 2 ? 5 : 2); cyc = op == 2 ? 1 : op == 4 ? 2 : 0; }
     else op = t.weighted({3, 2, 8, 2, 4, 4, 1, 1, 1, 2, 1, 1, 1, 1, 1});
     switch (op) {
@@ -82,7 +88,7 @@ bool prop_run(Tape &t, Report &r) {
         if (!in_set(rr, {0, OV_EINVAL}) || (want <= n && rr != 0)) return bail("vorbis_synthesis_read(%ld) returned %ld", want, rr); } break;
       case 6: { if (!have_vd) break; float **pcm = nullptr; int n = vorbis_synthesis_lapout(&vd, &pcm); hist += sfmt("lapout=%d ", n); if (hs_after_init) break; if (n < 0 || n > 2 * bs1) return bail("vorbis_synthesis_lapout returned %ld (long block size %ld)", n, bs1); double acc = 0; for (int c = 0; n > 0 && c < vi.channels; c++) for (int k = 0; k < n; k++) acc += pcm[c][k]; (void)acc; } break;
       case 7: { if (!have_vd) break; int rr = vorbis_synthesis_restart(&vd); hist += sfmt("restart=%d ", rr); block_ok = false; if (!in_set(rr, {0, -1})) return bail("vorbis_synthesis_restart returned %ld", rr, 0); } break;
-      case 8: { if (!vi.codec_setup || hdr_ok < 1) break; int f = (int)t.below(2); int rr = vorbis_synthesis_halfrate(&vi, f); if (have_vd) { hs_after_init = true; r.label("halfrate toggled after init"); } hist += sfmt("halfrate(%d)=%d ", f, rr); if (!in_set(rr, {0, -1})) return bail("vorbis_synthesis_halfrate returned %ld", rr, 0); } break;   // also after init: the property quantifies over every order of these calls
+      case 8: { if (!vi.codec_setup || hdr_ok < 1) break; int f = forced8 >= 0 ? forced8 : (int)t.below(2); forced8 = -1; int rr = vorbis_synthesis_halfrate(&vi, f); if (have_vd) { hs_after_init = true; r.label("halfrate toggled after init"); } hist += sfmt("halfrate(%d)=%d ", f, rr); if (!in_set(rr, {0, -1})) return bail("vorbis_synthesis_halfrate returned %ld", rr, 0); } break;   // also after init: the property quantifies over every order of these calls
       case 9: { if (!vi.codec_setup || s.audio.empty() || hdr_ok < 3) break; ogg_packet o2; s.audio[t.below((uint32_t)s.audio.size())].to_ogg(o2); long rr = vorbis_packet_blocksize(&vi, &o2); if (!(rr > 0 || in_set(rr, {OV_ENOTAUDIO, OV_EBADPACKET, OV_EFAULT}))) return bail("vorbis_packet_blocksize returned %ld", rr, 0); } break;
       case 10: { int a = vorbis_info_blocksize(&vi, 0), b = vorbis_info_blocksize(&vi, 1); if (hdr_ok >= 1 && vi.codec_setup && !(a >= 64 && b >= a && b <= 8192)) return bail("vorbis_info_blocksize reports %ld/%ld after an accepted identification header", a, b); } break;
       case 11: { if (!have_vd) break; double gt = vorbis_granule_time(&vd, (int64_t)t.raw()); (void)gt; } break;
